@@ -647,7 +647,8 @@ def gen_options(tier, F):
 
 SELECTORS_CNFGEN = [
     ['-of', 'dimacs'], ['-of', 'opb'], ['-of', 'latex'], ['-l'],
-    ['-o', 'o.cnf'], ['-o', 'o.opb'], ['-o', 'o.tex'], ['-q', '-of', 'opb'],
+    ['-o', 'o.cnf'], ['-o', 'o.opb'], ['-o', 'o.tex'], ['--output', 'o.opb'],
+    ['--output=o.tex'], ['--outpu', 'o.opb'], ['-q', '-of', 'opb'],
     ['-q', '-of', 'latex'], ['-q'], ['--varnames'],
     ['--varnames', '-of', 'opb'], ['--varnames', '-of', 'latex', '-o', 'o.x'],
     ['-v', '--output-format=opb'], ['--output=o.tex', '-q', '--varnames'],
@@ -663,7 +664,7 @@ def gen_formats(tier, F):
     for d in F:
         name = d['name']
         vecs = list(small_vectors(d, A3 if thorough else A2))
-        sel = SELECTORS_CNFGEN if thorough else SELECTORS_CNFGEN[:10]
+        sel = SELECTORS_CNFGEN if thorough else SELECTORS_CNFGEN[:13]
         for s in sel:
             for w in vecs:
                 yield case('formats', 'cnfgen', name, s, [name] + w)
